@@ -40,13 +40,16 @@ type Solver struct {
 	args     []string
 	timeout  int
 	log      *os.File
-	cache    map[string]Result
+	cache    map[int]Result
+	stack    []*Term   // conjuncts currently asserted, one push level each
+	defs     [][]*Term // terms defined at each push level (defs[0] = base level)
+	CacheHit int
 }
 
 var solverGen int
 
 func NewSolver(bin string, timeoutMs int, seed int) (*Solver, error) {
-	s := &Solver{bin: bin, timeout: timeoutMs, cache: map[string]Result{}}
+	s := &Solver{bin: bin, timeout: timeoutMs, cache: map[int]Result{}}
 	switch {
 	case strings.Contains(bin, "cvc5"):
 		s.args = []string{"--incremental", "--produce-models", "--lang=smt2", fmt.Sprintf("--tlimit-per=%d", timeoutMs), fmt.Sprintf("--seed=%d", seed)}
@@ -81,6 +84,8 @@ func (s *Solver) start() error {
 	solverGen++
 	s.gen = solverGen
 	s.open = false
+	s.stack = nil
+	s.defs = [][]*Term{nil}
 	s.send("(set-option :produce-models true)")
 	if strings.Contains(s.bin, "cvc5") {
 		s.send("(set-logic ALL)")
@@ -170,31 +175,74 @@ func (s *Solver) define(t *Term) {
 		}
 		tt.sent = true
 		tt.gen = s.gen
+		if tt.Op != OConst {
+			s.defs[len(s.defs)-1] = append(s.defs[len(s.defs)-1], tt)
+		}
 		stack = stack[:len(stack)-1]
 	}
 }
 
-func (s *Solver) popIfOpen() {
-	if s.open {
-		s.send("(pop 1)")
-		s.open = false
+func (s *Solver) pushLevel() {
+	s.send("(push 1)")
+	s.defs = append(s.defs, nil)
+}
+
+func (s *Solver) popLevels(n int) {
+	if n <= 0 {
+		return
+	}
+	s.send(fmt.Sprintf("(pop %d)", n))
+	for i := 0; i < n; i++ {
+		for _, t := range s.defs[len(s.defs)-1] {
+			t.sent = false
+		}
+		s.defs = s.defs[:len(s.defs)-1]
 	}
 }
 
-// Check decides satisfiability of the conjunction. If the result is Sat the
-// frame stays open so that Values can be called; the next Check closes it.
+func (s *Solver) popIfOpen() { s.open = false }
+
+// flatten splits top-level conjunctions so that the asserted stack aligns with path conditions.
+func flattenConj(asserts []*Term) []*Term {
+	out := make([]*Term, 0, len(asserts)+4)
+	for _, a := range asserts {
+		if a.IsTrue() {
+			continue
+		}
+		out = append(out, a)
+	}
+	return out
+}
+
+// Check decides satisfiability of the conjunction. The conjuncts are kept asserted on the
+// solver's stack (one push level each); the next Check pops only what differs, so queries
+// along one path (and its forks) share all solver work on the common prefix.
+// After Sat the model stays available for Values until the next Check.
 func (s *Solver) Check(asserts []*Term) Result {
-	s.popIfOpen()
+	s.open = false
 	conj := And(asserts...)
 	if conj.IsFalse() {
 		return Unsat
 	}
+	if r, ok := s.cache[conj.ID]; ok && r == Unsat {
+		s.CacheHit++
+		return r
+	}
 	t0 := time.Now()
 	defer func() { s.Wall += time.Since(t0) }()
-	s.define(conj)
-	s.send("(push 1)")
-	s.open = true
-	s.send(fmt.Sprintf("(assert %s)", conj.ref()))
+	as := flattenConj(asserts)
+	k := 0
+	for k < len(as) && k < len(s.stack) && as[k] == s.stack[k] {
+		k++
+	}
+	s.popLevels(len(s.stack) - k)
+	s.stack = s.stack[:k]
+	for _, a := range as[k:] {
+		s.pushLevel()
+		s.define(a)
+		s.send(fmt.Sprintf("(assert %s)", a.ref()))
+		s.stack = append(s.stack, a)
+	}
 	s.send("(check-sat)")
 	s.Queries++
 	resp, err := s.readResp()
@@ -207,17 +255,17 @@ func (s *Solver) Check(asserts []*Term) Result {
 	switch {
 	case strings.HasPrefix(resp, "unsat"):
 		s.NUnsat++
-		s.popIfOpen()
+		s.cache[conj.ID] = Unsat
 		return Unsat
 	case strings.HasPrefix(resp, "sat"):
 		s.NSat++
+		s.open = true
 		return Sat
 	default:
 		if strings.Contains(resp, "(error") {
 			s.Errors = append(s.Errors, resp)
 		}
 		s.NUnknown++
-		s.popIfOpen()
 		return Unknown
 	}
 }
@@ -254,20 +302,16 @@ func (s *Solver) Values(ts []*Term) ([]uint64, error) {
 		if end > len(q) {
 			end = len(q)
 		}
-		var newly []*Term
 		var sb strings.Builder
 		sb.WriteString("(get-value (")
 		for _, t := range q[off:end] {
-			newly = append(newly, s.defineInFrame(t)...)
+			s.define(t) // recorded at the current push level; forgotten when that level is popped
 			sb.WriteString(t.ref())
 			sb.WriteString(" ")
 		}
 		sb.WriteString("))")
 		s.send(sb.String())
 		resp, err := s.readResp()
-		for _, t := range newly {
-			t.sent = false
-		}
 		if err != nil || strings.Contains(resp, "(error") {
 			s.Errors = append(s.Errors, "get-value: "+resp)
 			return nil, fmt.Errorf("get-value failed: %s", resp)
